@@ -589,10 +589,10 @@ pub fn run(ctx: &Ctx) {
     ctx.set_rule("E1: (a) recursive values (depth <= 4; every scalar kind incl. dates and date-times with sub-seconds and offsets; arrays; objects of 0..6 keys) observed through &v, ValueCow::Owned/Borrowed, to_value(), as_view(), Some(v), serde to_value / from_value::<Value> / from_value::<serde_json::Value> (kind), JSON and YAML text round trips: identical type_name, truthy/default/empty/blank, is_*, scalar conversions, structure, and (single-key containers) to_kstr/render/source; (b) a family of structs with derive(Serialize, Deserialize, ObjectView, ValueView) (every field type, Option, Vec, nested struct, Vec of structs, BTreeMap/HashMap, zero-field struct, fields named size/first) rendered through ~150 probes per instance (output, if, size, == empty/blank/nil, default, for, contains, map/where/sort/join) once exposed through the derive and once through to_object; plus serde-only enums/tuples/newtypes round-tripped; (c) E2: integers within +-3 of i64::MIN/MAX, u64::MAX, 2^63, 2^64, 2^62, 2^53, 0 through seven routes (u64, i128, JSON text, YAML text, JSON object, struct field, integer map key). Non-trivial = datum holds a container, a date, an Option or a boundary integer; distinct by datum.");
     ctx.assume("string leaves never spell one of the crate's date formats (serde maps those to dates by design); State markers and NaN are not data");
     ctx.cases("integers", bigints(), bigint_oracle);
-    ctx.random("integers_random", ctx.pick(20_000, 200_000), || {
+    ctx.random("integers_random", ctx.pick(20_000, 2_000_000), || {
         (prop_oneof![any::<i64>().prop_map(|x| x as i128), any::<u64>().prop_map(|x| x as i128), any::<i64>().prop_map(|x| x as i128 * 3)], 0u8..7).prop_map(|(n, route)| BigInt { text: n.to_string(), route })
     }, bigint_oracle);
-    ctx.random("value_views", ctx.pick(150_000, 1_500_000), datum, views_oracle);
-    ctx.random("derive_vs_serde", ctx.pick(25_000, 250_000), nested, derive_oracle);
-    ctx.random("serde_only_shapes", ctx.pick(20_000, 200_000), serde_only, serde_only_oracle);
+    ctx.random("value_views", ctx.pick(150_000, 10_000_000), datum, views_oracle);
+    ctx.random("derive_vs_serde", ctx.pick(25_000, 2_000_000), nested, derive_oracle);
+    ctx.random("serde_only_shapes", ctx.pick(20_000, 2_000_000), serde_only, serde_only_oracle);
 }
